@@ -223,6 +223,21 @@ theorem stableRef_perm {α} (lt : α → α → Bool) : ∀ xs : List α, (stabl
 theorem mergeBy_nil_right {α} (lt : α → α → Bool) (l : List α) : mergeBy lt l [] = l := by
   cases l <;> simp [mergeBy]
 
+/-- the reference sort leaves an ordered list alone (no assumption on `lt`) -/
+theorem stableRef_of_sorted {α} (lt : α → α → Bool) :
+    ∀ xs : List α, SortedBy lt xs → stableRef lt xs = xs
+  | [], _ => rfl
+  | x :: ys, h => by
+    have hp := List.pairwise_cons.mp h
+    have ih := stableRef_of_sorted lt ys hp.2
+    show orderedInsertBy lt x (stableRef lt ys) = x :: ys
+    rw [ih]
+    cases ys with
+    | nil => rfl
+    | cons y ys' =>
+      have : lt y x = false := hp.1 y (by simp)
+      simp [orderedInsertBy, this]
+
 theorem orderedInsertBy_mergeBy {α} {lt : α → α → Bool} {P : α → Prop} (h : WeakOrderOn lt P)
     (x : α) (hx : P x) :
     ∀ (l r : List α), (∀ y ∈ l, P y) → (∀ y ∈ r, P y) →
